@@ -3,15 +3,34 @@ C08 — decoding any bytes from the network returns a value or an error, never a
 Property theorems.  Models: `Model/ReadPrim.lean`, `Model/TypeParser.lean`, `Model/Response.lean`, `Model/FrameHdr.lean`;
 helper lemmas: `Proofs/Decode.lean`.
 
-Totality ("terminates and yields a value or an error"): every decoder of the model is a total Lean function whose
-result type `Outcome α` has exactly the constructors `ok` and `err`; Lean accepted each definition by structural
-recursion (on the nesting fuel / the element count / the parameter-loop fuel), which is the termination proof.
-`outcome_total` states the "value or error" half explicitly.
+Totality ("terminates"): every decoder of the model is a total Lean function; Lean accepted each definition by
+structural recursion (on the nesting fuel / the element count / the parameter-loop fuel), which is the termination
+proof.  "Never a panic": the result type `Outcome α` has the constructors `ok`, `err` and `panic site`; the model
+produces `panic` exactly where the Rust code performs a partial operation whose precondition does not hold, and
+`no_panic` proves that this never happens.
 -/
 import ScyllaVerif.Proofs.DecodeRT
+import ScyllaVerif.Proofs.CustomFuel
 
 namespace ScyllaVerif.Props.C08
 open ScyllaVerif.C08
+
+/-! ### the model's termination fuel is not a behaviour
+
+The custom type string parser of the model has two loops with a fuel argument (`paramsLoop`, `udtFields`: fuel =
+remaining scalars + 1) and a few arms the code cannot reach; they produce the model-only error `CtErr.fuel`.
+It is never produced: every successful `do_parse` on a non-empty input consumes at least one scalar
+(`doParse_shr`), so the fuel always suffices.  (The nesting fuel of `doParse` / `deserType` is different: it IS the
+code's own depth limit, `depth >= 128` / `depth > 128`.) -/
+
+theorem fuel_never_exhausted (uni : List (Bytes × UCls)) (s : Bytes) (w : String) :
+    customParse uni s ≠ .error (.fuel w) :=
+  customParse_nf uni s w
+
+/-- The custom type string parser never reaches its `unwrap`, for every string and class table. -/
+theorem custom_parser_no_panic (uni : List (Bytes × UCls)) (s : Bytes) (site : String) :
+    customParse uni s ≠ .error (.panic site) :=
+  customParse_np uni s site
 
 /-! ### allocation proportional to the input, recursion depth bounded
 
@@ -19,12 +38,92 @@ open ScyllaVerif.C08
 (fixed) Rust code requests them; `St.depth` the deepest recursion level of the two type parsers.  Both bounds hold
 whether decoding succeeds or fails. -/
 
+/-! ### raw cells: the only error kinds, never the panic string -/
+
+private theorem takeN_err (n : Nat) (kd k : String) (s s' : St) (h : takeN n kd s = (.err k, s')) : k = kd := by
+  unfold takeN at h
+  split at h
+  · injection h with h1 _; injection h1 with h1; exact h1.symm
+  · simp at h
+
+/-- `read_cql_bytes` can only fail with `eof` (length field) or `few` (cell body). -/
+theorem readBytesOpt_err_kinds (s s' : St) (k : String) (h : readBytesOpt s = (.err k, s')) :
+    k = "eof" ∨ k = "few" := by
+  unfold readBytesOpt readInt at h
+  simp only [bind_def, readRaw_eq_takeN] at h
+  cases ht : takeN 4 "eof" s with
+  | mk o s1 =>
+    rw [ht] at h
+    cases o with
+    | err k' => simp only at h; injection h with h1 _; injection h1 with h1; subst h1; exact .inl (takeN_err _ _ _ _ _ ht)
+    | panic k' => simp at h
+    | ok raw =>
+      simp only [pure_def] at h
+      split at h
+      · simp at h
+      · simp only [bind_def] at h
+        cases ht2 : takeN (toSigned 32 (beNat raw)).toNat "few" s1 with
+        | mk o2 s2 =>
+          rw [ht2] at h
+          cases o2 with
+          | err k' => simp only at h; injection h with h1 _; injection h1 with h1; subst h1; exact .inr (takeN_err _ _ _ _ _ ht2)
+          | panic k' => simp at h
+          | ok b => simp at h
+
+theorem readCells_err_kinds : ∀ (n idx : Nat) (buf : Bytes) (c : Nat) (k : String),
+    readCells n idx buf = .error (c, k) → k = "eof" ∨ k = "few"
+  | 0, _, _, _, _, h => by simp [readCells] at h
+  | n + 1, idx, buf, c, k, h => by
+    unfold readCells at h
+    cases hr : readBytesOpt { buf := buf } with
+    | mk o s1 =>
+      rw [hr] at h
+      cases o with
+      | panic site =>
+        exfalso
+        have := aw_readBytesOpt (A := 1) (B := 0) (Nat.le_refl _) { buf := buf }
+        rw [hr] at this; exact this
+      | err k' =>
+        simp only at h
+        injection h with h; injection h with _ h2; subst h2
+        exact readBytesOpt_err_kinds _ _ _ hr
+      | ok cell =>
+        simp only at h
+        cases hrc : readCells n (idx + 1) s1.buf with
+        | error e =>
+          rw [hrc] at h; simp only at h
+          injection h with h; subst h
+          exact readCells_err_kinds n (idx + 1) s1.buf c k hrc
+        | ok pr => rw [hrc] at h; simp at h
+
+theorem readRows_err_kinds (ncols : Nat) : ∀ (n ridx : Nat) (buf : Bytes) (ri c : Nat) (k : String),
+    (readRows ncols n ridx buf).2 = some (ri, c, k) → k = "eof" ∨ k = "few"
+  | 0, _, _, _, _, _, h => by simp [readRows] at h
+  | n + 1, ridx, buf, ri, c, k, h => by
+    unfold readRows at h
+    cases hc : readCells ncols 0 buf with
+    | error e =>
+      obtain ⟨c', k'⟩ := e
+      rw [hc] at h
+      simp only [Option.some.injEq, Prod.mk.injEq] at h
+      obtain ⟨_, _, rfl⟩ := h
+      exact readCells_err_kinds ncols 0 buf c' k' hc
+    | ok pr =>
+      obtain ⟨cells, b⟩ := pr
+      rw [hc] at h
+      simp only at h
+      exact readRows_err_kinds ncols n (ridx + 1) b ri c k h
+
+/-- A rows stage is clean: its metadata step did not panic and a row error, if any, is a genuine short read. -/
+def StageClean (rs : RowsStage) : Prop :=
+  (∀ site, rs.dm ≠ .panic site) ∧ ∀ ri c k, rs.rowErr = some (ri, c, k) → k = "eof" ∨ k = "few"
+
 private theorem body_bounds (f : Features) (cached : Option ResultMeta) (h : Header) (body : Bytes)
     (uni : List (Bytes × UCls)) :
     (decodeBody f cached h body uni).2.alloc ≤ 2 * body.length + 131070 ∧
     (decodeBody f cached h body uni).2.depth ≤ 257 ∧
     (∀ site, (decodeBody f cached h body uni).1 ≠ .panic site) ∧
-    (∀ d rs site, (decodeBody f cached h body uni).1 = .ok d → d.rowsStage = some rs → rs.dm ≠ .panic site) := by
+    (∀ d rs, (decodeBody f cached h body uni).1 = .ok d → d.rowsStage = some rs → StageClean rs) := by
   unfold decodeBody
   have h1 := aw2_parseExt h.flags { buf := body, uni := uni }
   cases he : parseExt h.flags { buf := body, uni := uni } with
@@ -34,7 +133,7 @@ private theorem body_bounds (f : Features) (cached : Option ResultMeta) (h : Hea
     | panic k => exact h1.elim
     | err k =>
       simp only [U16, DEPTH_BOUND] at h1 ⊢
-      exact And.intro (by omega) (And.intro (by omega) (And.intro (fun site hh => by cases hh) (fun d rs site hh => by cases hh)))
+      exact And.intro (by omega) (And.intro (by omega) (And.intro (fun site hh => by cases hh) (fun d rs hh => by cases hh)))
     | ok ext =>
       simp only [U16, DEPTH_BOUND] at h1 ⊢
       have h2 := aw2_deserResponse f h.opcode s1
@@ -45,7 +144,7 @@ private theorem body_bounds (f : Features) (cached : Option ResultMeta) (h : Hea
         | panic k => exact h2.elim
         | err k =>
           simp only [U16, DEPTH_BOUND] at h2 ⊢
-          exact And.intro (by omega) (And.intro (by omega) (And.intro (fun site hh => by cases hh) (fun d rs site hh => by cases hh)))
+          exact And.intro (by omega) (And.intro (by omega) (And.intro (fun site hh => by cases hh) (fun d rs hh => by cases hh)))
         | ok resp =>
           simp only [U16, DEPTH_BOUND] at h2 ⊢
           split
@@ -60,20 +159,20 @@ private theorem body_bounds (f : Features) (cached : Option ResultMeta) (h : Hea
               | err k =>
                 simp only [U16, DEPTH_BOUND] at h3 ⊢
                 refine And.intro (by omega) (And.intro (by omega) (And.intro (fun site hh => by cases hh) ?_))
-                intro d rs site hd hrs
+                intro d rs hd hrs
                 injection hd with hd; subst hd
                 simp only [Option.some.injEq] at hrs; subst hrs
-                intro hh; cases hh
+                exact And.intro (fun site hh => by cases hh) (fun ri c k hh => by cases hh)
               | ok d =>
                 simp only [U16, DEPTH_BOUND] at h3 ⊢
                 refine And.intro (by omega) (And.intro (by omega) (And.intro (fun site hh => by cases hh) ?_))
-                intro d' rs site hd hrs
+                intro d' rs hd hrs
                 injection hd with hd; subst hd
                 simp only [Option.some.injEq] at hrs; subst hrs
-                intro hh; cases hh
+                exact And.intro (fun site hh => by cases hh) (fun ri c k hh => readRows_err_kinds _ _ _ _ ri c k hh)
           · simp only []
             refine And.intro (by omega) (And.intro (by omega) (And.intro (fun site hh => by cases hh) ?_))
-            intro d rs site hd hrs
+            intro d rs hd hrs
             injection hd with hd; subst hd
             simp at hrs
 
@@ -82,36 +181,41 @@ private theorem body_bounds (f : Features) (cached : Option ResultMeta) (h : Hea
 `Outcome` has a third constructor `panic site`, produced by the model exactly at the partial operations of the Rust
 code: `Bytes::advance(n)` with `n > remaining` and the `body_len - buf_len` subtraction
 (`parse_response_body_extensions`, frame/mod.rs:231-262), `raw.try_into().unwrap()` (`read_uuid`, types.rs:360),
-`Bytes::slice_ref` outside its parent (result.rs:353, 1064), `from_utf8(chunk).unwrap()` in `from_hex`
+`Bytes::slice_ref` outside its parent (result.rs:353, 1064, and `FrameSlice::to_bytes` at 847, 955),
+`split_at` in `read_raw_bytes` (separate from its length guard), `from_utf8(chunk).unwrap()` in `from_hex`
 (custom_type_parser.rs; reported through `deserType`).  `as usize` / `as u16` casts wrap and are modelled as the wrap.
 The theorems say that none of these sites is reachable, whatever the bytes: every guard precedes its partial
 operation.  (They follow from the invariant `AllocW`, whose `panic` branch is `False`, proved for every decoder in
 Proofs/DecodeAlloc.lean.) -/
 
-/-- Decoding a body — extensions, response, metadata stage of a Rows result — never panics. -/
+/-- Decoding a body — extensions, response, and the rows stage (metadata step + raw rows) — never panics. -/
 theorem no_panic_body (f : Features) (cached : Option ResultMeta) (h : Header) (body : Bytes)
-    (uni : List (Bytes × UCls)) (site : String) :
-    (decodeBody f cached h body uni).1 ≠ .panic site ∧
-    ∀ d rs, (decodeBody f cached h body uni).1 = .ok d → d.rowsStage = some rs → rs.dm ≠ .panic site :=
-  ⟨(body_bounds f cached h body uni).2.2.1 site, fun d rs => (body_bounds f cached h body uni).2.2.2 d rs site⟩
+    (uni : List (Bytes × UCls)) :
+    (∀ site, (decodeBody f cached h body uni).1 ≠ .panic site) ∧
+    ∀ d rs, (decodeBody f cached h body uni).1 = .ok d → d.rowsStage = some rs → StageClean rs :=
+  ⟨(body_bounds f cached h body uni).2.2.1, (body_bounds f cached h body uni).2.2.2⟩
 
-/-- The whole pipeline never panics, for ALL byte strings, features, cached metadata and decompressors. -/
+/-- THE WHOLE PIPELINE NEVER PANICS, for ALL byte strings, features, cached metadata, decompressors and class
+tables: neither the frame/extension/response decoding, nor — for a Rows result — `deserialize_metadata`, nor the
+raw row reads (whose only failures are short reads). -/
 theorem no_panic (f : Features) (cached : Option ResultMeta) (decomp : Option (Bytes → Option Bytes))
-    (bs : Bytes) (uni : List (Bytes × UCls)) (site : String) : (decode f cached decomp bs uni).1 ≠ .panic site := by
+    (bs : Bytes) (uni : List (Bytes × UCls)) :
+    (∀ site, (decode f cached decomp bs uni).1 ≠ .panic site) ∧
+    ∀ d rs, (decode f cached decomp bs uni).1 = .ok d → d.rowsStage = some rs → StageClean rs := by
   unfold decode
   cases hp : parseFrame bs with
-  | error k => simp
+  | error k => exact ⟨by simp, by intro d rs hh; cases hh⟩
   | ok h =>
     simp only []
     split
     · cases decomp with
-      | none => simp
+      | none => exact ⟨by simp, by intro d rs hh; cases hh⟩
       | some d =>
         simp only []
         cases hdb : d h.body with
-        | none => simp
-        | some body => exact (no_panic_body f cached h body uni site).1
-    · exact (no_panic_body f cached h h.body uni site).1
+        | none => exact ⟨by simp, by intro d rs hh; cases hh⟩
+        | some body => exact no_panic_body f cached h body uni
+    · exact no_panic_body f cached h h.body uni
 
 /-- Each primitive reader on its own never panics either (here: the one with an `unwrap`). -/
 theorem no_panic_readUuid (s : St) (site : String) : (readUuid s).1 ≠ .panic site := by
@@ -265,7 +369,7 @@ theorem readString_roundtrip (str : Bytes) (hl : str.length < 65536) (hu : utf8o
   unfold readString
   have h1 := readShort_roundtrip str.length hl (str ++ rest) s (by simp [hs, encString])
   have h2 := takeN_append str rest "few" { s with buf := str ++ rest } rfl
-  simp only [bind_def, h1, readRaw, h2, checkUtf8, hu, if_true, pure_def]
+  simp only [bind_def, h1, readRaw_eq_takeN, h2, checkUtf8, hu, if_true, pure_def]
 
 /-- A `[string]` cut anywhere is an error, never a different string. -/
 theorem readString_truncation (str : Bytes) (hl : str.length < 65536) (p t : Bytes) (ht : t ≠ [])
@@ -292,7 +396,7 @@ theorem readString_truncation (str : Bytes) (hl : str.length < 65536) (p t : Byt
       simp [encShort] at this
       omega
     refine ⟨"few", ?_⟩
-    simp only [bind_def, h1, readRaw, takeN_short str.length "few" { s with buf := q } hql]
+    simp only [bind_def, h1, readRaw_eq_takeN, takeN_short str.length "few" { s with buf := q } hql]
 
 theorem readBytesOpt_roundtrip (o : Option Bytes) (ho : ∀ b, o = some b → b.length < 2 ^ 31) (rest : Bytes) (s : St)
     (hs : s.buf = encBytesOpt o ++ rest) : readBytesOpt s = (.ok o, { s with buf := rest }) := by
@@ -306,7 +410,7 @@ theorem readBytesOpt_roundtrip (o : Option Bytes) (ho : ∀ b, o = some b → b.
     have h1 := readInt_roundtrip (b.length : Int) (by omega) (b ++ rest) s (by simp [hs, encBytesOpt])
     have h2 := takeN_append b rest "few" { s with buf := b ++ rest } rfl
     have hn : ¬ ((b.length : Int) < 0) := by omega
-    simp only [bind_def, h1, hn, if_false, readRaw, Int.toNat_natCast, h2, pure_def]
+    simp only [bind_def, h1, hn, if_false, readRaw_eq_takeN, Int.toNat_natCast, h2, pure_def]
 
 /-- A primitive that is cut short is an error: `takeN` never invents bytes. -/
 theorem readInt_truncation (s : St) (h : s.buf.length < 4) : ∃ k, (readInt s).1 = .err k :=
@@ -428,8 +532,8 @@ theorem wellformed_roundtrip_rows (r : RawRows) (cached : Option ResultMeta) (m 
   refine ⟨?_, readRows_roundtrip m.cols.length rows 0 hr⟩
   unfold deserMetadata
   obtain ⟨s1, h1, hb1⟩ := rt_metaFor r cached m hm _ s hs
-  obtain ⟨s2, h2, hb2⟩ := rt_tag "rowscount" (rt_readIntLength rows.length hn) (rows.flatMap encRow) s1 hb1
-  simp only [bind_def, h1, h2, takeRest, hb2, pure_def]
+  obtain ⟨s2, h2, hb2⟩ := rt_tracked (rt_tag "rowscount" (rt_readIntLength rows.length hn)) (rows.flatMap encRow) s1 hb1
+  simp only [bind_def, h1, h2, sliceRef, if_true, takeRest, hb2, pure_def]
 
 /-- The same for a result sent WITHOUT metadata (flag 0x4: the normal path of a prepared EXECUTE with
 skip-metadata): the metadata is the cached one the caller passed — or empty when there is none — and the rows count
@@ -445,11 +549,11 @@ theorem wellformed_roundtrip_rows_nometa (r : RawRows) (cached : Option ResultMe
     readRows sm.2.cols.length rows.length 0 (rows.flatMap encRow) = (rows, none) := by
   intro sm hr
   refine ⟨?_, readRows_roundtrip sm.2.cols.length rows 0 hr⟩
-  obtain ⟨s2, h2, hb2⟩ := rt_tag "rowscount" (rt_readIntLength rows.length hn) (rows.flatMap encRow) s hs
+  obtain ⟨s2, h2, hb2⟩ := rt_tracked (rt_tag "rowscount" (rt_readIntLength rows.length hn)) (rows.flatMap encRow) s hs
   unfold deserMetadata metaFor
   cases cached with
-  | some c => simp only [hp, bind_def, pure_def, h2, takeRest, hb2, sm]
-  | none => simp only [hp, bind_def, pure_def, h2, takeRest, hb2, sm]
+  | some c => simp only [hp, bind_def, pure_def, h2, sliceRef, if_true, takeRest, hb2, sm]
+  | none => simp only [hp, bind_def, pure_def, h2, sliceRef, if_true, takeRest, hb2, sm]
 
 /-! ### iterating the rows past an error
 
